@@ -237,22 +237,17 @@ impl StreamAlphaNode {
                 WindowType::Tumbling => {
                     let window_start = (current_time / window_duration_ms) * window_duration_ms;
 
-                    // If we've moved to a new window, clear old events
+                    // If we've moved to a new window, remember it. The buffer is not cleared here:
+                    // the event that opened the new window has just been added and belongs to it.
                     if self.last_window_start != 0 && window_start != self.last_window_start {
-                        self.events.clear();
                         self.last_window_start = window_start;
                     } else if self.last_window_start == 0 {
                         self.last_window_start = window_start;
                     }
 
                     // Remove events from previous windows
-                    while let Some(event) = self.events.front() {
-                        if event.metadata.timestamp < window_start {
-                            self.events.pop_front();
-                        } else {
-                            break;
-                        }
-                    }
+                    self.events
+                        .retain(|event| event.metadata.timestamp >= window_start);
                 }
                 WindowType::Session { timeout } => {
                     let timeout_ms = timeout.as_millis() as u64;
